@@ -1,16 +1,17 @@
 /-
   C30GenFindings — kernel-checked witnesses of the disagreements between the translated coercion tables
-  (`IQE.Gen.Coerce`) on the UNCHANGED tree. Not wired into ./check: a repair of /repo (proposed_fixes/
-  C30-decimal-int-coercion.patch) legitimately changes these statements. See IQE/Props/C30Gen.lean.
+  (`IQE.Gen.Coerce`) at /repo HEAD. Not wired into ./check: a repair of /repo legitimately changes these statements
+  (the decimal/integer one did, with fix commit e24f569). See IQE/Props/C30Gen.lean.
 -/
 import IQE.Gen.Coerce
 namespace IQE.Props.C30GenFindings
 open IQE IQE.Gen.Coerce
 
-/-- DEFECT (unchanged tree): DECIMAL with an integer is executed in the integer type — the decimal operand is cast to
-    an integer and loses its fraction — while the planner reports Decimal128(38, 10). -/
-theorem C30Gen_decimal_int_disagree (p s : Int) :
-    exec_coerce (.Decimal128 p s) .Int64 = .ok .Int64 ∧ exec_coerce .Int32 (.Decimal128 p s) = .ok .Int64 ∧
+/-- Was a DEFECT until /repo commit e24f569 (C30-F3): DECIMAL with an integer was executed in the INTEGER type (the decimal
+    operand lost its fraction). Since the fix the executor computes in Decimal128(38, s). What remains open: the planner
+    still reports Decimal128(38, 10) whatever the operand's scale. -/
+theorem C30Gen_decimal_int_after_fix (p s : Int) :
+    exec_coerce (.Decimal128 p s) .Int64 = .ok (.Decimal128 38 s) ∧ exec_coerce .Int32 (.Decimal128 p s) = .ok (.Decimal128 38 s) ∧
     plan_coerce (.Decimal128 p s) .Int64 = .Decimal128 38 10 ∧ plan_coerce .Int32 (.Decimal128 p s) = .Decimal128 38 10 := by
   refine ⟨?_, ?_, rfl, rfl⟩ <;> simp [exec_coerce]
 
